@@ -49,7 +49,7 @@ theorem sat_withGroup {α} (d : Delim) (inner : Sp → Sp → P α) (Q : α → 
   unfold withGroup at he
   split at he
   · split at he
-    · simp only at he
+    · (try simp only at he)
       split at he
       · rename_i hin
         cases he
